@@ -311,9 +311,57 @@ theorem isSatFails_ok {cfg : Config} (hc : Covers cfg = true) {s : Stack} {st : 
   · obtain ⟨s1, e1, g1⟩ := solve_ok hSolve h (some f)
     exact ⟨s1, by simp [isSatFails, hps, e1], g1.inv⟩
 
+/-- `solve([f])` through a temporary level, as the wrappers implement it -/
+theorem assumingPush_ok {cfg : Config} (hc : Covers cfg = true) {s : Stack} {st : St} (h : Inv cfg s st) (f : Nat) :
+    ∃ st', assumingPush cfg f st = .ok st' ∧ Inv cfg s st' := by
+  obtain ⟨hAdd, hPush, hPop, hSolve, hReset, hRead⟩ := (covers_iff cfg).1 hc
+  have hne : s ≠ [] := by obtain ⟨_, _, g0⟩ := h; exact g0.nonempty
+  by_cases hap : cfg.assumePush = true
+  case neg =>
+    obtain ⟨s1, e1, g1⟩ := solve_ok hSolve h (some f)
+    exact ⟨s1, by simp [assumingPush, hap, e1], g1.inv⟩
+  obtain ⟨s0, e0, g0⟩ := enter_inv h
+  obtain ⟨s1, e1, g1⟩ := push_ok hPush g0.inv 1
+  obtain ⟨s2, e2, g2⟩ := add_ok hAdd g1.inv f
+  have g3 := solve_good g2 (seen cfg s2)
+  refine ⟨{ s2 with pending := true, checks := seen cfg s2 :: s2.checks },
+    by simp [assumingPush, hap, hSolve, e0, e1, e2], ?_⟩
+  obtain ⟨s4, e4, g4⟩ := popCore_good g3 1 (by
+    cases s with
+    | nil => exact absurd rfl hne
+    | cons _ _ => simp [addItem])
+  refine ⟨s4, ?_, by simpa [addItem] using g4⟩
+  have := pending_eta _ g3.notPending
+  simp only [clear, if_true]
+  rw [← this] at e4
+  exact e4
+
+/-- … when asserting the assumption raises, PROVIDED the wrapper sets `pending_pop` on the way out -/
+theorem assumingPushFails_ok {cfg : Config} (hc : Covers cfg = true) (hg : cfg.assumeGuarded = true) {s : Stack}
+    {st : St} (h : Inv cfg s st) (f : Nat) : ∃ st', assumingPushFails cfg f st = .ok st' ∧ Inv cfg s st' := by
+  obtain ⟨hAdd, hPush, hPop, hSolve, hReset, hRead⟩ := (covers_iff cfg).1 hc
+  have hne : s ≠ [] := by obtain ⟨_, _, g0⟩ := h; exact g0.nonempty
+  by_cases hap : cfg.assumePush = true
+  case neg =>
+    obtain ⟨s1, e1, g1⟩ := solve_ok hSolve h (some f)
+    exact ⟨s1, by simp [assumingPushFails, hap, e1], g1.inv⟩
+  obtain ⟨s0, e0, g0⟩ := enter_inv h
+  obtain ⟨s1, e1, g1⟩ := push_ok hPush g0.inv 1
+  obtain ⟨s2, e2, g2⟩ := enter_inv g1.inv
+  refine ⟨{ s2 with pending := true }, by simp [assumingPushFails, hap, hSolve, hAdd, hg, e0, e1, e2], ?_⟩
+  obtain ⟨s4, e4, g4⟩ := popCore_good g2 1 (by
+    cases s with
+    | nil => exact absurd rfl hne
+    | cons _ _ => simp)
+  refine ⟨s4, ?_, by simpa using g4⟩
+  have := pending_eta s2 g2.notPending
+  simp only [clear, if_true]
+  rw [this]
+  exact e4
+
 /-- one step of the solver API, started in a related state, ends in a related state -/
 theorem step_inv {cfg : Config} (hc : Covers cfg = true) {s : Stack} {st : St} (h : Inv cfg s st) (o : Op)
-    (hl : legal s o.cmd = true) :
+    (hl : legal s o.cmd = true) (ha : cfg.assumeGuarded = true ∨ leaky o = false) :
     ∃ st', SolverTrack.step cfg st o = .ok st' ∧ Inv cfg (AssertStack.step s o.cmd) st' := by
   obtain ⟨hAdd, hPush, hPop, hSolve, hReset, hRead⟩ := (covers_iff cfg).1 hc
   cases o with
@@ -361,6 +409,11 @@ theorem step_inv {cfg : Config} (hc : Covers cfg = true) {s : Stack} {st : St} (
     | assuming =>
       obtain ⟨st1, h1, g1⟩ := solve_ok hSolve h (some f)
       exact ⟨st1, h1, g1.inv⟩
+  | assumingPush f => exact assumingPush_ok hc h f
+  | assumingPushFails f =>
+    cases ha with
+    | inl hg => exact assumingPushFails_ok hc hg h f
+    | inr hn => simp [leaky] at hn
   | read =>
     simp only [SolverTrack.step, SolverTrack.read, Op.cmd, AssertStack.step]
     by_cases hd : cfg.dRead = true
@@ -370,26 +423,48 @@ theorem step_inv {cfg : Config} (hc : Covers cfg = true) {s : Stack} {st : St} (
     · simp only [enter, hd, Bool.false_eq_true, if_false]
       exact ⟨_, rfl, h⟩
 
+/-- the sequence contains no call whose exception path this placement leaves unprotected -/
+def Admits (cfg : Config) (ops : List Op) : Prop :=
+  cfg.assumeGuarded = true ∨ ∀ o ∈ ops, leaky o = false
+
+instance (cfg : Config) (ops : List Op) : Decidable (Admits cfg ops) := by unfold Admits; exact inferInstance
+
+theorem Admits.tail {cfg : Config} {o : Op} {os : List Op} (h : Admits cfg (o :: os)) : Admits cfg os := by
+  cases h with
+  | inl h => exact .inl h
+  | inr h => exact .inr fun x hx => h x (by simp [hx])
+
+theorem Admits.head {cfg : Config} {o : Op} {os : List Op} (h : Admits cfg (o :: os)) :
+    cfg.assumeGuarded = true ∨ leaky o = false := by
+  cases h with
+  | inl h => exact .inl h
+  | inr h => exact .inr (h o (by simp))
+
+theorem Admits.take {cfg : Config} {ops : List Op} (h : Admits cfg ops) (k : Nat) : Admits cfg (ops.take k) := by
+  cases h with
+  | inl h => exact .inl h
+  | inr h => exact .inr fun x hx => h x (List.mem_of_mem_take hx)
+
 theorem runFrom_inv {cfg : Config} (hc : Covers cfg = true) : ∀ (ops : List Op) (s s' : Stack) (st : St),
-    Inv cfg s st → AssertStack.runFrom s (ops.map Op.cmd) = some s' →
+    Admits cfg ops → Inv cfg s st → AssertStack.runFrom s (ops.map Op.cmd) = some s' →
     ∃ st', SolverTrack.runFrom cfg st ops = .ok st' ∧ Inv cfg s' st'
-  | [], s, s', st, h, hr => by
+  | [], s, s', st, _, h, hr => by
     simp only [List.map_nil, AssertStack.runFrom, Option.some.injEq] at hr
     subst hr
     exact ⟨st, rfl, h⟩
-  | o :: os, s, s', st, h, hr => by
+  | o :: os, s, s', st, ha, h, hr => by
     simp only [List.map_cons, AssertStack.runFrom] at hr
     by_cases hl : legal s o.cmd = true
     · simp only [hl, if_true] at hr
-      obtain ⟨st1, h1, i1⟩ := step_inv hc h o hl
-      obtain ⟨st2, h2, i2⟩ := runFrom_inv hc os _ s' st1 i1 hr
+      obtain ⟨st1, h1, i1⟩ := step_inv hc h o hl ha.head
+      obtain ⟨st2, h2, i2⟩ := runFrom_inv hc os _ s' st1 ha.tail i1 hr
       exact ⟨st2, by simp [SolverTrack.runFrom, h1, h2], i2⟩
     · simp [hl] at hr
 
 /-- Every legal sequence of API calls runs without exception and ends in a state related to the spec's. -/
-theorem run_inv {cfg : Config} (hc : Covers cfg = true) (ops : List Op) (s : Stack) (h : runOps ops = some s) :
-    ∃ st, SolverTrack.run cfg ops = .ok st ∧ Inv cfg s st :=
-  runFrom_inv hc ops init s St.init (good_init cfg).inv h
+theorem run_inv {cfg : Config} (hc : Covers cfg = true) (ops : List Op) (ha : Admits cfg ops) (s : Stack)
+    (h : runOps ops = some s) : ∃ st, SolverTrack.run cfg ops = .ok st ∧ Inv cfg s st :=
+  runFrom_inv hc ops init s St.init ha (good_init cfg).inv h
 
 /-! ### what is observed in a related state -/
 
